@@ -154,7 +154,11 @@ def sec_judge(case, impl_line):
     L = ((S[1] & 0x0f) << 8) | S[2]
     hits = [d for dl in per[start:] for d in dl if d[3] == S]
     if L > 1021:
-        return "a section declaring a length above 1021 was delivered" if hits else None
+        # nothing of it may reach the consumer, whole or cut short (its bytes start with the section's header)
+        part = [d for dl in per[start:] for d in dl if len(d[3]) >= 3 and S[:len(d[3])] == d[3]]
+        if hits or part:
+            return f"a section declaring a length above 1021 ({L}) was delivered ({len((hits or part)[0][3])} bytes)"
+        return None
     if len(hits) != 1:
         return f"target section delivered {len(hits)} times (expected exactly once) from its start packet on"
     d = hits[0]
@@ -364,6 +368,22 @@ def started_version(data, pkt_index):
     if (((s[1] & 0x0f) << 8) | s[2]) > 1021: return None
     return (s[5] >> 1) & 31
 
+def reset_packets(data, pid):
+    """indices of the packets on `pid` in which a section starts (valid pointer_field) with fewer than 3 of its bytes left in
+    the packet: the section header straddles the packet boundary, SectionPacketConsumer resets the whole chain (finding F9)"""
+    out = []
+    for k in range(len(data) // 188):
+        b = data[k * 188:(k + 1) * 188]
+        if b[0] != 0x47: continue
+        p = Pkt(b)
+        if p.pid != pid or not p.pusi or p.tei or p.scr: continue
+        pl = p.payload()
+        if pl is None or len(pl) < 1: continue
+        ptr = pl[0]; sd = pl[1:]
+        if ptr > 0 and ptr >= len(sd): continue          # malformed pointer_field: not a valid stream, not this class
+        if 0 < len(sd) - ptr < 3: out.append(k)
+    return out
+
 def history_judge(case, impl_line, prop):
     """returns ('ok',None) | ('violation', why) | ('known', id)"""
     recs, data = parse_history(case)
@@ -389,14 +409,22 @@ def history_judge(case, impl_line, prop):
     pat_since_pmt = {}        # pmt pid -> a new PAT version was applied since that PMT's last application (instance re-created)
     recreated = set()         # pmt pids whose handler instance was re-created between two of their versions
     listed_by = {}            # elementary pid -> set of pmt pids that ever listed it
+    shared_ever = set()       # elementary pids that two program maps listed at the same time (finding F7)
     stale = {}                # pid -> (table pid that dropped it, forbidden request kind)
+    prev_last = {}            # table pid -> last packet of the previous transmission on it
+    applied_first = {}        # table pid -> first packet of the transmission last applied (or last re-applied)
+    resets = {}               # table pid -> packets in which a section header straddles the packet boundary (F9)
     known = None
     for rc in recs:
         if rc["k"] == "T":
             pid = rc["pid"]; ver = rc["ver"]
             if pid != 0:
                 for (_, ep) in rc["streams"]: listed_by.setdefault(ep, set()).add(pid)
-            cons = table_constructs(rc["first"], rc["last"])
+            # tight packing: the packet in which this section starts also carries the end of the previous one (whose
+            # requests are made there); a section spanning packets causes no request in its own start packet
+            shared = prev_last.get(pid) == rc["first"] and rc["last"] > rc["first"]
+            prev_last[pid] = rc["last"]
+            cons = table_constructs(rc["first"] + (1 if shared else 0), rc["last"])
             if rc["kind"] == "dmg":
                 sv = started_version(data, rc["first"])
                 if sv is not None: started_not_applied.setdefault(pid, set()).add(sv)
@@ -414,7 +442,7 @@ def history_judge(case, impl_line, prop):
                         return ("violation", f"intact table on PID {pid} (packets {rc['first']}..{rc['last']}, version {ver}) whose version differs from the one last applied was not applied")
                 elif got != exp and prop == "C05":
                     return ("violation", f"table on PID {pid} version {ver}: requests {got} differ from the entries {exp}")
-                ideal_ver[pid] = ver; started_not_applied[pid] = set()
+                ideal_ver[pid] = ver; started_not_applied[pid] = set(); applied_first[pid] = rc["first"]
                 if pid == 0:
                     for (n, q) in ideal_pat:
                         if q not in [x[1] for x in rc["pat"]]: stale[q] = (0, "nit" if n == 0 else "pmt")
@@ -426,13 +454,19 @@ def history_judge(case, impl_line, prop):
                         if pat_since_pmt.get(pid): recreated.add(pid)
                         for (t, q) in ideal_pmt[pid][1]:
                             if q not in [x[1] for x in rc["streams"]]: stale[q] = (pid, "bystream")
-                    for (t, q) in rc["streams"]: stale.pop(q, None)
+                    for (t, q) in rc["streams"]:
+                        stale.pop(q, None)
+                        if any(pp != pid and q in [x[1] for x in ideal_pmt[pp][1]] for pp in ideal_pmt): shared_ever.add(q)
                     ideal_pmt[pid] = (rc["pn"], rc["streams"]); pat_since_pmt[pid] = False
             else:
                 if cons and prop == "C10":
+                    if pid not in resets: resets[pid] = reset_packets(data, pid)
                     if pid != 0 and pat_since_pmt.get(pid):
                         known = known or "F8"
                         pat_since_pmt[pid] = False
+                    elif any(applied_first.get(pid, -1) < k < rc["first"] for k in resets[pid]):
+                        known = known or "F9"
+                        applied_first[pid] = rc["first"]
                     else:
                         return ("violation", f"repetition of the table on PID {pid} (version {ver}, packets {rc['first']}..{rc['last']}) caused requests {cons[:3]}")
         elif rc["k"] == "P" and prop == "C05":
@@ -457,7 +491,7 @@ def history_judge(case, impl_line, prop):
                     bad = f"that PID was dropped by a newer version of the table on PID {tp} and must no longer go to the handler it installed"
                     owners = [tp]
             if bad:
-                if len(listed_by.get(X, ())) >= 2: known = known or "F7"
+                if X in shared_ever: known = known or "F7"
                 elif any(o in recreated for o in owners): known = known or "F8"
                 elif known == "F2": pass               # routing after a blocked table (F2) follows the older table
                 else:
